@@ -51,6 +51,12 @@ class InstanceMethodField(Field, InstanceMethodFieldMixin):
 
         return wrapper
 
+    def __getval__(self, cfg: Config) -> Callable:
+        """
+        :returns: the bound method (item access, ``config["name"]``, reads fields through here)
+        """
+        return vars(cfg).get(self._key) or self._bind(cfg)
+
     def validate(self, cfg: Config, value: Any) -> Any:
         return value
 
